@@ -170,6 +170,21 @@ check("C12", "runtime monitoring: post-condition on QiskitConverter.convert (dua
       "Trusted: qiskit.quantum_info.Operator, own permanent; conversions needing >8 (quick) / >10 (thorough) photons are "
       "skipped and counted; leakage outputs sampled for large cases.", "DESIGN.md 4 C12")
 
+check("C15", "runtime monitoring: the experiment callback as monitor (records and identifies every requested circuit as base + "
+      "basis change for exactly one setting, answers with exact frequencies from the own Fock reference), post-condition "
+      "on StateTomography.process, base-circuit fingerprint",
+      "Held on the base circuits explored (n=1..3, complex non-symmetric and entangled states, post-selected and heralded "
+      "gates, private ancillas, heralds declared directly on the base circuit): one circuit per setting, each the base "
+      "followed by the basis changes; rho Hermitian, unit trace, equal to |psi><psi| to 1e-8, fidelity 1; base unchanged.",
+      "Trusted: own permanent for exact frequencies and for the prepared state; input |0..0> dual-rail.", "DESIGN.md 4 C15")
+check("C16", "runtime monitoring: exact-frequency experiment callback + post-conditions on LIProcessTomography.process, "
+      "MLEProcessTomography.process and GateFidelity.process against choi_from_unitary(V) / the average-gate-fidelity "
+      "formula, with V taken from the base circuit's own dual-rail amplitudes",
+      "Held on the one- and two-qubit unitaries explored (complex, non-symmetric, entangling, with directly declared "
+      "heralds): LI Choi equals choi_from_unitary(V) to 1e-8 with fidelity 1, MLE Choi positive, trace preserving to "
+      "1e-3 and fidelity >= 0.99, gate fidelity 1 for V and the formula value for Haar / V^T / V* targets.",
+      "Trusted: own permanent; the library's choi_from_unitary is the stated reference.", "DESIGN.md 4 C16")
+
 NOT_APPLICABLE = []
 _EXPLICIT_NA = {}
 for line in open("/verif/properties.jsonl"):
